@@ -2,6 +2,7 @@
 import itertools
 from ..facts import Program, AnalysisBroken
 from .. import q
+from . import c02
 
 CLAIM = {
     'text': 'Order, provenance and sibling-agreement rules on the resend machinery: a message that already carries MsgSeqNum is resent '
@@ -431,6 +432,9 @@ def run(ctx):
     _c27.append_rule(ctx, cand[0], dw[0], 'R18.7')
     for cls in ('FIX8::MemoryPersister', 'FIX8::FilePersister'):
         _c26.nearest_rule(ctx, prog, cls, 'R18.8')
+    # ---------------- R18.9 the replay adds PossDupFlag / OrigSendingTime at their schema positions to a message decoded with arrival positions: the position
+    # index must keep two fields that share a position (rule of C02 R02.5 / C01 R01.6: the index is a multimap), or the added field is never encoded
+    c02.pos_type_rule(ctx, prog, 'R18.9')
     ctx.floor('R18.7', 1)
     ctx.floor('R18.8', 4)
     ctx.floor('R18.5', 2)
